@@ -45,7 +45,10 @@ def gen_spec(rng, clean=False, max_nodes=5):
         if clean or r > pbad:
             return ('#' + rng.choice(pool)) if pool else None
         if r < pbad / 3 or not pool:
-            return '#nosuch%d' % rng.randint(0, 2)
+            if kind == 'materials' and pool and rng.random() < 0.5:
+                # dangling by id, but the text is the NAME of a material (names are free text, not ids)
+                return '#name-of-' + rng.choice(pool)
+            return rng.choice(['#nosuch%d' % rng.randint(0, 2), '#no%%such%d' % rng.randint(0, 2), '#nosuch%20x'])
         if r < 2 * pbad / 3:
             return rng.choice(pool)          # '#' missing
         # not of the form '#'+id although the fragment is a local id: another document, '##id', ...
@@ -68,11 +71,15 @@ def gen_spec(rng, clean=False, max_nodes=5):
     for e in tex_fx:
         others = [x['id'] for x in tex_fx if x is not e]
         if not clean and rng.random() < 0.35:
-            which = rng.choice(['samp_src', 'tex', 'bump_tex'])
+            which = rng.choice(['samp_src', 'samp2_src', 'tex', 'bump_tex'])
             if which == 'samp_src':
-                e['samp_src'] = rng.choice(['nosuchsurf'] + [x + '-surf' for x in others])
+                # undefined, another effect's surface, or something of THIS scope that is not a surface
+                # (a float parameter defined before the sampler; one defined after it is not in the scope yet)
+                e['samp_src'] = rng.choice(['nosuchsurf', e['id'] + '-f0', e['id'] + '-f', e['id'] + '-samp'] + [x + '-surf' for x in others])
+            elif which == 'samp2_src':
+                e['samp2_src'] = rng.choice([e['id'] + '-samp', e['id'] + '-f0', 'nosuchsurf'])
             elif which == 'tex':
-                e['tex'] = rng.choice(['nosuchsamp'] + [x + '-samp' for x in others])
+                e['tex'] = rng.choice(['nosuchsamp', e['id'] + '-surf', e['id'] + '-f', e['id'] + '-samp2'] + [x + '-samp' for x in others])
             else:
                 e['bump'] = True
                 e['bump_tex'] = rng.choice(['nosuchsamp'] + [x + '-samp' for x in others])
@@ -283,8 +290,10 @@ def build(spec):
                 if x['image'] is not None:
                     for np_ in el.iter(q('newparam')):
                         sm = np_.find(q('sampler2D'))
-                        if sm is not None and x.get('samp_src'):
+                        if sm is not None and np_.get('sid').endswith('-samp') and x.get('samp_src'):
                             sm.find(q('source')).text = x['samp_src']
+                        if sm is not None and np_.get('sid').endswith('-samp2') and x.get('samp2_src'):
+                            sm.find(q('source')).text = x['samp2_src']
                     for tx in el.iter(q('texture')):
                         in_extra = any(tx in list(b) for b in el.iter(q('bump')))
                         if in_extra and x.get('bump_tex'):
@@ -408,8 +417,10 @@ def c_doc(spec, uids, I):
                 fx = 'None'
                 if k == 'effects' and x['image'] is not None:
                     eid = x['id']
-                    ps = ['(PSurface %d%%N %d%%N %d%%N)' % (I(eid + '-surf'), uids[('np', id(x), 0)], I(x['image'])),
-                          '(PSampler %d%%N %d%%N %d%%N)' % (I(eid + '-samp'), uids[('np', id(x), 1)], I(x.get('samp_src') or eid + '-surf')),
+                    ps = ['(PValue %d%%N)' % I(eid + '-f0'),
+                          '(PSurface %d%%N %d%%N %d%%N)' % (I(eid + '-surf'), uids[('np', id(x), 1)], I(x['image'])),
+                          '(PSampler %d%%N %d%%N %d%%N)' % (I(eid + '-samp'), uids[('np', id(x), 2)], I(x.get('samp_src') or eid + '-surf')),
+                          '(PSampler %d%%N %d%%N %d%%N)' % (I(eid + '-samp2'), uids[('np', id(x), 3)], I(x.get('samp2_src') or eid + '-surf')),
                           '(PValue %d%%N)' % I(eid + '-f')]
                     bump = '(Some %d%%N)' % I(x.get('bump_tex') or eid + '-samp') if x.get('bump') else 'None'
                     fx = '(Some (FX %s [%d%%N] %s))' % (c_list(ps), I(x.get('tex') or eid + '-samp'), bump)
